@@ -33,7 +33,7 @@ RULE = ('Abstract Config/Partial DAGs with aliasing through parameters and conta
         'answer equals canon truth; a==b implies isomorphic builds. Non-trivial: DAG has >=2 '
         'Buildables; distinct = (DAG sketch, rewrite).')
 RULE_ADDITIONS = (' Added by the rounds of seeded changes (DESIGN 9.7): ' +
-                  'eq-true-sharing-differs:alias-redirected | equal but builds differ in sharing | fix: compare full path sets per shared object; renamed **kwargs (builds compared up to **kwargs arrival order)')
+                  'eq-true-sharing-differs:alias-redirected | equal but builds differ in sharing | fix: compare full path sets per shared object; renamed **kwargs (builds compared up to **kwargs arrival order); directed pairs: operands overlapping each other at different positions (and transitivity through a copy), a default-equal object shared by two arguments')
 RULE = RULE + RULE_ADDITIONS
 ASSUMPTIONS = [
     "ground truth is vf.canon 'cfg-defaults' (independent of fiddle's == and daglish)",
